@@ -95,6 +95,13 @@ def body(ctx):
                                    dict(api='push', size=n_ - 8 - 15 - 8 - 8, src='bytesio', path='/' + 'p' * 8, mtime=3)]))  # one WRITE of exactly n_ bytes (SEND+DATA+DONE)
     for mult in (3 * 16384, 5 * 16384, 65536 + 16384):
         specs.append(dict(seed=mult, maxdata=1024 * 1024, rid='plus', frag='whole', ops=[dict(api='exec_out', decode=False, cmd='z' * (mult - 6), chunks=[])]))
+    # authenticated handshakes: AUTH(SIGNATURE) and AUTH(RSAPUBLICKEY) frames, the public key as str / bytes / bytearray, ASCII or not
+    # (keygen appends ' user@host': a user or host name may be anything)
+    for ai, pub in enumerate(['QUJDRA== user@host', 'QUJDRA== j\xf6rg@b\xfcro', 'QUJDRA== \u7528\u6237@\u4e3b\u673a', 'k' * 700 + ' \u20ac@h']):
+        for pt in ('str', 'bytes', 'bytearray'):
+            for accept in ('pub', 'sig'):
+                specs.append(dict(seed=700 + ai, maxdata=4096, rid='plus', frag='whole', auth=dict(accept=accept, pub=pub, pub_type=pt, nkeys=2),
+                                  ops=[dict(api='shell', decode=False, cmd='id', chunks=[b'uid=0'.hex()])]))
     corpus = scen.run_corpus(specs)
     traces = [c[3] for c in corpus]
     frames = sum(1 for t in traces for e in t if e['ev'] == 'tx')
